@@ -65,6 +65,16 @@ def failures_of(prop, results, cfg):
             if keys is not None and base not in keys and v["key"] not in keys:
                 continue
             fails.append({"key": f"{v['key']}@{r['name']}:{r['transport']}", "scenario": scn, "detail": v.get("detail", "")[:1500], "result": r})
+    # scripts played against the real client and evaluated by the Lean model (decision-logic views)
+    import conformance
+    mf, mstats = conformance.model_oracle(results)
+    for f in mf:
+        base = f["key"].split("@")[0]
+        if keys is None or base in keys or base == "model_driver":
+            fails.append(f)
+    cfg.setdefault("_model_oracle", {"scripts": 0, "ambiguous": 0, "compared": 0})
+    for k, v in mstats.items():
+        cfg["_model_oracle"][k] += v
     if cfg.get("cross_transport"):
         # C20: the canonical application traces of the same script over TCP and WebSocket must be equal
         canon = {}
@@ -200,6 +210,7 @@ def run(prop, cfg, tier, seed, replay):
         "traces_validated_against_impl": conf.get("checked", 0),
         "monitor_verdicts": nver, "failing_histories": len(fails), "scenario_distribution": dist,
         "conformance_mismatches": len(conf.get("mismatches", [])),
+        "model_scripts": cfg.get("_model_oracle", {}),
         "timing_retries": (batches[0].get("meta", {}) or {}).get("timing_retries", 0) if batches else 0,
         "known_findings_matched": sorted(matched), "fixed_findings": [f["commit"] + " " + f["text"] for f in fixed],
         "extract": {k: ex.get(k) for k in ("changed", "anchors_lost", "error") if k in ex},
